@@ -322,7 +322,7 @@ func (n *noMatchEv) Edge(st uint8, from *ssa.BasicBlock, succ int) uint8 {
 		return st
 	}
 	if iff, ok := from.Instrs[len(from.Instrs)-1].(*ssa.If); ok {
-		cond, pos := normCond(iff.Cond, succ == 0)
+		cond, pos := ifCond(iff, succ == 0)
 		if n.carriers[cond] && !pos {
 			return st &^ bPEND
 		}
